@@ -202,6 +202,10 @@ func (b *BinaryExpression) shape() binaryShape {
 	// Handle IS NULL / IS NOT NULL (right side is NULL literal)
 	if upperOp == "IS NULL" || upperOp == "IS NOT NULL" {
 		sh.middle = " " + upperOp
+		if b.Not && upperOp == "IS NULL" {
+			// the parser represents IS NOT NULL as operator "IS NULL" with the Not flag
+			sh.middle = " IS NOT NULL"
+		}
 		sh.hasRight = false
 		return sh
 	}
